@@ -53,6 +53,11 @@ FAMILIES = {
     'closure-with-binary-body': lambda d, nl: '#let f = ' + ('x => 1 + (' + nl) * d + 'x' + (nl + ')') * d,
     'chain-with-content': lambda d, nl: ('#a.b().c[' + nl) * d + 'x' + (nl + ']') * d,
     'for-over-binary': lambda d, nl: '#{ ' + ('for i in 1 + { ' + nl) * d + '1' + (nl + ' } {}') * d + ' }',
+    # kept blank lines between the entries of a list (a look-ahead over the next entry must not convert it)
+    'call-with-blank-lines': lambda d, nl: '#' + ('f(a,\n\n' + nl) * d + 'b' + ')' * d,
+    'block-with-blank-lines': lambda d, nl: '#' + ('{\na\n\n' + nl) * d + 'b' + '\n}' * d,
+    'array-with-blank-lines': lambda d, nl: '#' + ('(a,\n\n' + nl) * d + 'b' + ',)' * d,
+    'args-with-comment-lines': lambda d, nl: '#' + ('f(a, // c\n' + nl) * d + 'b' + ')' * d,
     'strong-emph': lambda d, nl: ''.join('*' if i % 2 == 0 else '_' for i in range(d)) + 'x' + ''.join('*' if i % 2 == 0 else '_' for i in reversed(range(d))),
 }
 
